@@ -102,3 +102,15 @@ Theorem C07_qpq_elects_highest_excludes_lowest_quotient : forall A S (ZL : zlike
        stl A (cands (qpq_step A cfg s)) = stl A (upd_cand A (cid c) (fun x => with_st x Defeated (cpend x)) (cands s))).
 Proof. exact qpq_step_extreme_quotient. Qed.
 Print Assumptions C07_qpq_elects_highest_excludes_lowest_quotient.
+
+(* ---- "candidates excluded as a batch are always sure losers ... and enough candidates remain to fill the seats":
+   batchDefeat of wigm-prf-batch, meek and warren ([batch_defeat surp s], surp = the untransferred surplus), in every state.
+   A non-empty batch leaves at least as many hopefuls as there are seats to fill, and its combined tallies plus the surplus
+   are below the tally of a hopeful candidate (the first of the next group in ascending order of tally: the "next
+   candidate").  [rsum] adds raw tallies. *)
+Theorem C07_batch_of_sure_losers_partial : forall A S (ZL : zlike A S) cfg, exact A = false -> forall surp (s : est A),
+  batch_defeat A cfg surp s <> [] ->
+  nlen (batch_defeat A cfg surp s) <= nlen (hopefuls A s) - seats_left A cfg s /\
+  exists c, In c (hopefuls A s) /\ rsum A S ZL (batch_defeat A cfg surp s) + raw ZL surp < raw ZL (cvote c).
+Proof. exact batch_defeat_sure_losers. Qed.
+Print Assumptions C07_batch_of_sure_losers_partial.
